@@ -87,6 +87,29 @@ Proof.
   - eauto.
   - intros v _. reflexivity.
 Qed.
+
+(* the same with an environment that agrees with e on every variable *)
+Theorem sim_keeps_walks_e n e e' ds tr st :
+  (exists b p, find h n = Some b /\ n_kind b = KOrig p) -> E F0 e e' ->
+  WTrace h (resolve_flat h) strict n e ds tr st -> WTrace h' (resolve_flat h') strict n e' ds tr st.
+Proof.
+  intros [b [p [Hb Hk]]] He W.
+  apply (walk_refines h h' _ _ strict F0 LeafS hold_sim n e ds tr st W e').
+  - exists b. split; [exact Hb|unfold is_region; rewrite Hk; reflexivity].
+  - eauto.
+  - exact He.
+Qed.
+
+Theorem sim_keeps_ctrace_e n e e' ds :
+  (exists b p, find h n = Some b /\ n_kind b = KOrig p) -> E F0 e e' ->
+  CTrace h (resolve_flat h) strict n e ds -> CTrace h' (resolve_flat h') strict n e' ds.
+Proof.
+  intros [b [p [Hb Hk]]] He W.
+  apply (ctrace_refines h h' _ _ strict F0 LeafS hold_sim n e ds W e').
+  - exists b. split; [exact Hb|unfold is_region; rewrite Hk; reflexivity].
+  - eauto.
+  - exact He.
+Qed.
 End Sim.
 
 (* ---------- the early return ---------- *)
@@ -180,4 +203,14 @@ Theorem early_return_keeps_ctrace n e ds :
   (exists b0 p, find h n = Some b0 /\ n_kind b0 = KOrig p) ->
   CTrace h (resolve_flat h) strict n e ds -> CTrace h' (resolve_flat h') strict n e ds.
 Proof. apply (sim_keeps_ctrace h h' strict early_sim Hres). Qed.
+
+Theorem early_return_keeps_walks_e n e e' ds tr st :
+  (exists b0 p, find h n = Some b0 /\ n_kind b0 = KOrig p) -> E F0 e e' ->
+  WTrace h (resolve_flat h) strict n e ds tr st -> WTrace h' (resolve_flat h') strict n e' ds tr st.
+Proof. apply (sim_keeps_walks_e h h' strict early_sim Hres). Qed.
+
+Theorem early_return_keeps_ctrace_e n e e' ds :
+  (exists b0 p, find h n = Some b0 /\ n_kind b0 = KOrig p) -> E F0 e e' ->
+  CTrace h (resolve_flat h) strict n e ds -> CTrace h' (resolve_flat h') strict n e' ds.
+Proof. apply (sim_keeps_ctrace_e h h' strict early_sim Hres). Qed.
 End Early.
